@@ -923,6 +923,47 @@ class Inliner(object):
             out.extend(self.stmt(caller, stmt, stack))
         return _fuse(_resugar(_split_parallel(out)))
 
+    def unroll_constant_loop(self, caller, stmt, stack):
+        """for k in ('a', 'b', 'c'): D[k] OP= E[k]   ->   the body once per
+        constant, in order - only for a short literal tuple of strings, a
+        plain name as target, a body of one or two subscript-update
+        statements (no jump, no rebinding of the target) and no else."""
+        if stmt.orelse or not isinstance(stmt.target, ast.Name) or \
+                not isinstance(stmt.iter, (ast.Tuple, ast.List)) or \
+                not 2 <= len(stmt.iter.elts) <= 4 or \
+                not all(isinstance(e, ast.Constant) and
+                        isinstance(e.value, str) for e in stmt.iter.elts) \
+                or len(stmt.body) > 2:
+            return None
+        var = stmt.target.id
+        for sub in stmt.body:
+            if not (isinstance(sub, ast.AugAssign) and
+                    isinstance(sub.target, ast.Subscript) and
+                    isinstance(sub.target.slice, ast.Name) and
+                    sub.target.slice.id == var):
+                return None
+            for leaf in ast.walk(sub):
+                if isinstance(leaf, ast.Name) and leaf.id == var and \
+                        isinstance(leaf.ctx, ast.Store):
+                    return None
+                if isinstance(leaf, (ast.Lambda, ast.ListComp, ast.SetComp,
+                                     ast.DictComp, ast.GeneratorExp)):
+                    return None
+        # the name is not read after the loop
+        out = []
+        for const in stmt.iter.elts:
+            class Sub(ast.NodeTransformer):
+                def visit_Name(self, node, const=const):
+                    if node.id == var and isinstance(node.ctx, ast.Load):
+                        return ast.copy_location(
+                            ast.Constant(value=const.value), node)
+                    return node
+            for sub in stmt.body:
+                new = Sub().visit(copy.deepcopy(sub))
+                ast.fix_missing_locations(new)
+                out.extend(self.stmt(caller, new, stack))
+        return out
+
     def _fresh(self, name):
         self.counter += 1
         return '_inl_%s_%d' % (name.strip('_'), self.counter)
@@ -1263,6 +1304,9 @@ class Inliner(object):
             for hdl in stmt.handlers:
                 hdl.body = self.process(caller, hdl.body, stack)
         if isinstance(stmt, ast.For):
+            unrolled = self.unroll_constant_loop(caller, stmt, stack)
+            if unrolled is not None:
+                return unrolled
             _desugar_iter_adaptor(stmt)
             unrolled = self.generator_loop(caller, stmt, stack)
             if unrolled is not None:
